@@ -529,7 +529,7 @@ func (ip *Interp) mergeStates(c *Cond, t, e *State, nEventsBefore int) *State {
 	if len(te) > 0 || len(ee) > 0 {
 		m.Events = append(m.Events, Event{Kind: "if", Type: c.String(), Body: [][]Event{append([]Event{}, te...), append([]Event{}, ee...)}})
 	}
-	m.Trace = append(append([]string{}, t.Trace[:min(len(t.Trace), len(e.Trace))]...))
+	m.Trace = append([]string{}, t.Trace[:min(len(t.Trace), len(e.Trace))]...)
 	if len(m.Trace) > 0 {
 		m.Trace = m.Trace[:len(m.Trace)-1]
 	}
